@@ -509,3 +509,27 @@ Definition get_test_data (q : request) (mc : N) : hres unit :=
               else HR (ack q (pattern (N.to_nat n) 0) mc) tt
   end.
 Definition set_test_data (q : request) (mc : N) : option response := ack q (q_data q) mc.
+
+(* ---- DimmerRootDevice::SetDmxBlockAddress over its sub-devices; a sub-device is seen through
+   Footprint() and its start address *)
+Definition dsub := (N * N)%type.                       (* footprint, start address *)
+(* bool DimmerSubDevice::SetDmxStartAddress(uint16_t): refused addresses change nothing *)
+Definition dsub_set_start (s : dsub) (a : N) : dsub :=
+  if (a <? 1) || (Z.of_N DMX_UNIVERSE_SIZE <? Z.of_N a + Z.of_N (fst s) - 1)%Z then s else (fst s, a).
+Fixpoint sum_fp (l : list dsub) (acc : N) : N :=          (* uint16_t total_footprint += ... *)
+  match l with [] => acc | s :: r => sum_fp r (u16 (acc + fst s)) end.
+Fixpoint block_apply (l : list dsub) (base : N) : list dsub :=
+  match l with
+  | [] => []
+  | s :: r => dsub_set_start s base :: block_apply r (u16 (base + fst s))
+  end.
+Definition set_dmx_block_address (q : request) (l : list dsub) : hres (list dsub) :=
+  match extract 2 q with
+  | EOob => HOob
+  | EBad => HR (nack_with_reason q NR_FORMAT_ERROR 0) l
+  | EVal b =>
+    let total := sum_fp l 0 in
+    if (b <? 1) || (Z.of_N DMX_MAX_SLOT_VALUE <? Z.of_N b + Z.of_N total - 1)%Z
+    then HR (nack_with_reason q NR_DATA_OUT_OF_RANGE 0) l
+    else HR (get_response_from_data q [] RDM_ACK 0) (block_apply l b)
+  end.
